@@ -110,6 +110,14 @@ impl GtState {
             CoreError::InvalidGTConfig
         );
 
+        // Rank `0` means "below every threshold", so a threshold of zero is not allowed:
+        // a user that has never held GT would otherwise keep rank `0` with one threshold
+        // at or below its (zero) balance.
+        require!(
+            ranks.first().map_or(true, |first| *first != 0),
+            CoreError::InvalidGTConfig
+        );
+
         let clock = Clock::get()?;
 
         self.decimals = decimals;
